@@ -29,6 +29,47 @@ def install():
         return orig(pyrdl_def)
 
     _ops.OpDef.from_pyrdl = staticmethod(from_pyrdl)
+    _skip_detached_worklist_entries()
+
+
+def _skip_detached_worklist_entries():
+    """xDSL 0.70's PatternRewriteWalker sets `InsertPoint.before(op)` for every worklist entry and raises for an operation that was
+    detached behind the rewriter's back (e.g. dispatch-regions replaces an existing `func.func private @snax_cluster_core_idx`
+    through SymbolTable.insert_or_update while that declaration is still queued).  A pattern applied to a detached operation cannot
+    change the module, so such stale entries are simply skipped: the module a pass produces is the same, only the crash is gone."""
+    try:
+        from xdsl.dialects.builtin import ModuleOp
+        from xdsl.ir import Operation
+        from xdsl.utils import worklist as _wl
+    except Exception:
+        return
+    W = _wl.Worklist
+    missing = _wl._MISSING
+
+    def _drop(self):
+        st = self._stack
+        while st:
+            it = st[-1]
+            if it is missing:
+                st.pop()
+            elif isinstance(it, Operation) and it.parent is None and not isinstance(it, ModuleOp):
+                st.pop()
+                self._map.pop(it, None)
+            else:
+                break
+
+    orig_pop = W.pop
+
+    def __bool__(self):
+        _drop(self)
+        return bool(self._stack)
+
+    def pop(self):
+        _drop(self)
+        return orig_pop(self)
+
+    W.__bool__ = __bool__
+    W.pop = pop
 
 
 def repo_path():
